@@ -6,8 +6,10 @@
     Go map iteration: after the repair of D10 the pattern's keys are visited
     in sorted order ([sort_kvs]); the other ranges (fact keys in the
     property-variable case, the indexed structured facts, the scalar set)
-    are visited in list order here, and [Model/MatchOrd.v] generalises that
-    to any order. *)
+    go through the order oracle [ord] (any function returning a permutation
+    of its argument): theorems quantify over it, execution instantiates it
+    with the identity.  (The labels given to left-over scalar facts when they
+    are merged back are never observed and are assigned in list order.) *)
 From Sheens Require Export Model.Bindings.
 
 Inductive res (A : Type) : Type :=
@@ -84,6 +86,12 @@ Definition inequal (f : json) (bs : bindings) (v : string) : ineq_res :=
 
 (** * Helpers with open recursion ([rec] is [match_ n]) *)
 
+Definition order_oracle := forall A : Type, list A -> list A.
+Definition ord_id : order_oracle := fun _ l => l.
+
+Section WithOrder.
+Variable ord : order_oracle.
+
 (** matchWithBindingss *)
 Fixpoint mwb (rec : rec_t) (bss : list bindings) (p f : json) : res (list bindings) :=
   match bss with
@@ -129,17 +137,17 @@ Fixpoint mapcat (rec : rec_t) (bss : list bindings) (kvs fkvs : list (string * j
   end.
 
 (** mapcatMatch, the single property variable: gather over every fact key *)
-Fixpoint propvar (rec : rec_t) (bss : list bindings) (k : string) (v : json)
+Fixpoint propvar_loop (rec : rec_t) (bss : list bindings) (k : string) (v : json)
          (fkvs : list (string * json)) : res (list bindings) :=
   match fkvs with
   | [] => Ok []
   | (fk, fv) :: r =>
       match mwb rec bss (JStr k) (JStr fk) with
-      | Ok [] => propvar rec bss k v r
+      | Ok [] => propvar_loop rec bss k v r
       | Ok ext =>
           match mwb rec ext v fv with
           | Ok ext2 =>
-              match propvar rec bss k v r with
+              match propvar_loop rec bss k v r with
               | Ok g => Ok (ext2 ++ g)
               | Err => Err
               | Fuel => Fuel
@@ -151,6 +159,10 @@ Fixpoint propvar (rec : rec_t) (bss : list bindings) (k : string) (v : json)
       | Fuel => Fuel
       end
   end.
+
+Definition propvar (rec : rec_t) (bss : list bindings) (k : string) (v : json)
+           (fkvs : list (string * json)) : res (list bindings) :=
+  propvar_loop rec bss k v (ord _ fkvs).
 
 Definition has_var_key (kvs : list (string * json)) : bool :=
   existsb (fun kv => is_var (fst kv)) kvs.
@@ -243,7 +255,7 @@ Fixpoint arraycat (rec : rec_t) (pairs : list pair_t) (x : json) : res (list pai
   match pairs with
   | [] => Ok []
   | (bss, mm) :: r =>
-      match try_each rec bss x mm mm with
+      match try_each rec bss x mm (ord _ mm) with
       | Ok a =>
           match arraycat rec r x with
           | Ok b => Ok (a ++ b)
@@ -352,8 +364,10 @@ Fixpoint match_ (fuel : nat) (p f : json) (bs : bindings) {struct fuel}
       end
   end.
 
+End WithOrder.
+
 (** Matcher.Match: the API entry point (the defensive copy of the given
     bindings is the identity on an immutable value; a nil map is empty). *)
 Definition default_fuel : nat := 200.
 Definition Match (p f : json) (bs : bindings) : res (list bindings) :=
-  match_ default_fuel p f bs.
+  match_ ord_id default_fuel p f bs.
